@@ -99,14 +99,17 @@ def run(tier, seed):
         k2 += k_
     domops.report(ck, fails + f2, knowns + k2, box, univ)
     # (3) termination of analysis runs on loop-heavy programs
-    np_ = 80 if tier == "quick" else 1500
+    np_ = 80 if tier == "quick" else 750
     ps = []
     pdoms = progsound.all_domains()
     for i in range(np_):
         p = proggen.program(ck.rng, i + 1, shape=ck.rng.choice(["loop", "nested", "irreducible", "selfloop", "entryloop", "twoloops", "random"]))
         p["runs"] = [progsound.run_config(ck.rng, d) for d in pdoms]
         ps.append(p)
-    viols, merged, timeouts = progsound.explore(ck, "term", ps)
+    timeouts = []
+    for off in range(0, len(ps), 250):      # batches of 250 programs x all domains per runner + TLC run
+        _, _, to_ = progsound.explore(ck, "term%d" % off, ps[off:off + 250])
+        timeouts += to_
     ck.cov["analysis_runs"] = sum(len(p["runs"]) for p in ps)
     for t in timeouts[:5]:
         p = next(x for x in ps if x["id"] == t["id"])
